@@ -133,7 +133,8 @@ void COObjTypeUserSDOAbort(struct CO_OBJ_T *obj, struct CO_NODE_T *node, uint32_
     ASSERT_PTR(node);
 
     for (n = 0; n < CO_SSDO_N; n++) {
-        if (node->Sdo[n].Obj == obj) {
+        if ((node->Sdo[n].Obj == obj) &&
+            (node->Sdo[n].Frm != 0)) {
             node->Sdo[n].Abort = abort;
             break;
         }
